@@ -569,7 +569,9 @@ pub fn gen_big(prop: &str, seed: u64, idx: u64) -> (StreamScenario, GenInfo) {
     };
     // stream: mostly random with planted occurrences, in particular straddling
     // the first capacity boundary
-    let mut stream = rand_bytes(r, &pal, target);
+    // a third of the streams are sparse: a filler byte outside the alphabet with only
+    // planted occurrences (kilobyte-long non-match runs), the others random
+    let mut stream = if r.chance(1, 3) { vec![b'.'; target] } else { rand_bytes(r, &pal, target) };
     let mut planted = Vec::new();
     let plant = |s: &mut Vec<u8>, at: usize, p: &[u8], planted: &mut Vec<(usize, usize)>| {
         if at + p.len() <= s.len() {
